@@ -16,7 +16,7 @@ one() {
   rm -rf $D /tmp/ev_seed_$s
 }
 export -f one
-ls seeded | grep -E "${PAT:-^C[0-9]+_[A-J]$}" | xargs -P $J -I{} bash -c 'one {}' | sort > ${OUT:=/tmp/seedmatrix.out.$$}
+ls seeded | grep -E "${PAT:-^C[0-9]+_[A-L]$}" | xargs -P $J -I{} bash -c 'one {}' | sort > ${OUT:=/tmp/seedmatrix.out.$$}
 [ -n "$PAT" ] && { cat $OUT; exit 0; }
 { echo "# Seeded changes vs. the check of their property (regenerate with tools/seedmatrix.sh)"; echo; echo '```'; cat $OUT; echo '```'; } > seeded/RESULTS.md
 cat $OUT
